@@ -1,4 +1,7 @@
 import PallasVerif.Model.Rules
+import PallasVerif.Props.C34
+import PallasVerif.Props.C35
+import PallasVerif.Props.C37
 /-!
 # C38 — Each implemented ledger rule rejects transactions that break only it  (level: `other`)
 
@@ -69,21 +72,21 @@ theorem mem_order_post_byron (era : Era) (hb : era ≠ .byron) :
     Rule.minLovelace ∈ order era ∧ Rule.networkId ∈ order era ∧ Rule.fee ∈ order era ∧ Rule.auxData ∈ order era := by
   cases era <;> first | exact absurd rfl hb | decide
 
-theorem stated_post_byron (era : Era) (hb : era ≠ .byron) :
-    stated era .insNotEmpty = true ∧ stated era .insInUtxo = true ∧ stated era .validity = true ∧ stated era .txSize = true ∧
-    stated era .minLovelace = true ∧ stated era .networkId = true ∧ stated era .fee = true ∧ stated era .auxData = true := by
-  cases era <;> first | exact absurd rfl hb | decide
+theorem stated_post_byron (era : Era) (v : View) (hb : era ≠ .byron) :
+    stated era v .insNotEmpty = true ∧ stated era v .insInUtxo = true ∧ stated era v .validity = true ∧ stated era v .txSize = true ∧
+    stated era v .minLovelace = true ∧ stated era v .networkId = true ∧ stated era v .fee = true ∧ stated era v .auxData = true := by
+  cases era <;> first | exact absurd rfl hb | exact ⟨rfl, rfl, rfl, rfl, rfl, rfl, rfl, rfl⟩
 
 theorem accepted_inputs_nonempty (era : Era) (v : View) (hb : era ≠ .byron) (h : validate era v = none) : v.nInputs ≠ 0 := by
   have := accept_implies_all_rules era v h .insNotEmpty (mem_order_post_byron era hb).1
-  simpa [verdict, (stated_post_byron era hb).1, insNotEmpty] using this
+  simpa [verdict, (stated_post_byron era v hb).1, insNotEmpty] using this
 
 theorem accepted_inputs_present (era : Era) (v : View) (hb : era ≠ .byron) (h : validate era v = none) :
     (∀ b ∈ v.inputsIn, b = true) ∧
     (eraHasCollateral era = true → ∀ c ∈ v.collateral.getD [], c.inUtxo = true) ∧
     (eraHasRefInputs era = true → ∀ b ∈ v.refInputsIn, b = true) := by
   have := accept_implies_all_rules era v h .insInUtxo (mem_order_post_byron era hb).2.1
-  simp only [verdict, (stated_post_byron era hb).2.1, if_true, insInUtxo, Bool.and_eq_true, Bool.or_eq_true,
+  simp only [verdict, (stated_post_byron era v hb).2.1, if_true, insInUtxo, Bool.and_eq_true, Bool.or_eq_true,
     Bool.not_eq_true', List.all_eq_true] at this
   obtain ⟨⟨h1, h2⟩, h3⟩ := this
   refine ⟨fun b hb' => by simpa using h1 b hb', ?_, ?_⟩
@@ -99,7 +102,7 @@ theorem accepted_validity (era : Era) (v : View) (hb : era ≠ .byron) (h : vali
     (era ≠ .shelleyMA → ∀ s, v.validityStart = some s → s ≤ v.slot) ∧
     (era = .shelleyMA → v.ttl ≠ none) := by
   have := accept_implies_all_rules era v h .validity (mem_order_post_byron era hb).2.2.1
-  simp only [verdict, (stated_post_byron era hb).2.2.1, if_true, validity] at this
+  simp only [verdict, (stated_post_byron era v hb).2.2.1, if_true, validity] at this
   by_cases he : era = .shelleyMA
   · simp only [he, if_true, Bool.and_eq_true] at this
     refine ⟨?_, fun hne => absurd he hne, ?_⟩
@@ -112,17 +115,17 @@ theorem accepted_validity (era : Era) (v : View) (hb : era ≠ .byron) (h : vali
 
 theorem accepted_size (era : Era) (v : View) (hb : era ≠ .byron) (h : validate era v = none) : v.size ≤ v.maxSize := by
   have := accept_implies_all_rules era v h .txSize (mem_order_post_byron era hb).2.2.2.1
-  simpa [verdict, (stated_post_byron era hb).2.2.2.1, txSize] using this
+  simpa [verdict, (stated_post_byron era v hb).2.2.2.1, txSize] using this
 
 theorem accepted_min_lovelace (era : Era) (v : View) (hb : era ≠ .byron) (h : validate era v = none) :
     ∀ o ∈ v.outputs, minRequired era v o ≤ o.lovelace := by
   have := accept_implies_all_rules era v h .minLovelace (mem_order_post_byron era hb).2.2.2.2.1
-  simp only [verdict, (stated_post_byron era hb).2.2.2.2.1, if_true, minLovelace, List.all_eq_true, decide_eq_true_eq] at this
+  simp only [verdict, (stated_post_byron era v hb).2.2.2.2.1, if_true, minLovelace, List.all_eq_true, decide_eq_true_eq] at this
   exact this
 
 theorem accepted_value_size (era : Era) (v : View) (he : eraHasCollateral era = true)
     (h : validate era v = none) : ∀ o ∈ v.outputs, o.words ≤ v.maxValueSize := by
-  have hm : Rule.valSize ∈ order era ∧ stated era .valSize = true := by cases era <;> first | decide | exact absurd he (by decide)
+  have hm : Rule.valSize ∈ order era ∧ stated era v .valSize = true := by cases era <;> first | exact absurd he (by decide) | exact ⟨by decide, rfl⟩
   have := accept_implies_all_rules era v h .valSize hm.1
   simp only [verdict, hm.2, if_true, valSize, List.all_eq_true, decide_eq_true_eq] at this
   exact this
@@ -131,7 +134,7 @@ theorem accepted_network (era : Era) (v : View) (hb : era ≠ .byron) (h : valid
     (∀ o ∈ v.outputs, o.network = some v.envNetwork) ∧
     (era ≠ .shelleyMA → ∀ n, v.txNetwork = some n → n = v.envNetwork) := by
   have := accept_implies_all_rules era v h .networkId (mem_order_post_byron era hb).2.2.2.2.2.1
-  simp only [verdict, (stated_post_byron era hb).2.2.2.2.2.1, if_true, networkId, Bool.and_eq_true, List.all_eq_true,
+  simp only [verdict, (stated_post_byron era v hb).2.2.2.2.2.1, if_true, networkId, Bool.and_eq_true, List.all_eq_true,
     decide_eq_true_eq, Bool.or_eq_true] at this
   refine ⟨this.1, ?_⟩
   intro hne n hn
@@ -142,7 +145,7 @@ theorem accepted_network (era : Era) (v : View) (hb : era ≠ .byron) (h : valid
 theorem accepted_min_fee (era : Era) (v : View) (hb : era ≠ .byron) (h : validate era v = none) :
     v.minfeeB + v.minfeeA * v.size ≤ v.fee := by
   have := accept_implies_all_rules era v h .fee (mem_order_post_byron era hb).2.2.2.2.2.2.1
-  simp only [verdict, (stated_post_byron era hb).2.2.2.2.2.2.1, if_true, fee] at this
+  simp only [verdict, (stated_post_byron era v hb).2.2.2.2.2.2.1, if_true, fee] at this
   by_cases he : era = .shelleyMA
   · simpa [he, minFee] using this
   · simp only [he, if_false, Bool.and_eq_true] at this
@@ -194,10 +197,23 @@ def FullCollateralStatement : Prop :=
     (`check_fee` looks at `presence_of_plutus_scripts` only; see `full_collateral_fails_at_witness`) -/
 theorem accepted_collateral_partial (era : Era) (v : View) (he : eraHasCollateral era = true)
     (hp : v.plutusInWitnesses = true) (h : validate era v = none) : collateralOk era v = true := by
-  have hm : Rule.fee ∈ order era ∧ stated era .fee = true ∧ era ≠ .shelleyMA := by cases era <;> first | decide | exact absurd he (by decide)
+  have hm : Rule.fee ∈ order era ∧ stated era v .fee = true ∧ era ≠ .shelleyMA := by cases era <;> first | exact absurd he (by decide) | exact ⟨by decide, rfl, by decide⟩
   have := accept_implies_all_rules era v h .fee hm.1
   simp only [verdict, hm.2.1, if_true, fee, hm.2.2, if_false, Bool.and_eq_true, hp, Bool.not_true, Bool.false_or] at this
   exact this.2
+
+/-- neutral script / value / witness observations for the example views: nothing minted, no scripts, no datums, a balanced
+    lovelace-only value, no redeemers, no key-locked inputs -/
+private def sv0 : ScriptView :=
+  { mintPresent := false, mintPolicies := [], native := [], v1 := [], v2 := [], v3 := [], plutusFieldPresent := false, refScripts := [],
+    inputScripts := [], sortedInputScripts := [none], sortedPolicies := [], sortedWithdrawalScripts := [], withdrawalsOk := true, redeemers := [] }
+private def dv0 : DatumView := { witnessDatums := [], inputsResolved := true, inputDatumHashes := [none], allowedDatumHashes := [] }
+private def lv0 : LangView := { used := [], withCostModel := [0, 1, 2], anyByronAddress := false, anyDatumOrScriptRef := false, anyReferenceInput := false, protMagic := 764824073 }
+private def sd0 : SdhView := { provided := none, witnessSetBytes := [0xa0], costModels := [], redeemerEnc := none, datumEncs := none, redeemerCount := 0, costModelBytes := [] }
+private def val0 : ValueView := { modelled := true, shelleyEra := false, spent := [.coin 2200000], produced := [.coin 2000000], mint := none }
+private def ex0 : ExView := { wits := ⟨none, none, none, none⟩, maxMem := 14000000, maxSteps := 10000000000 }
+private def wit0 : WitView :=
+  { hash := fun _ => "", verify := fun _ _ _ => false, requiredSigners := none, witnesses := some [], inputViews := [.skipped], nativeOk := true, txId := [] }
 
 /-- the witness of the known finding `C38-collateral-not-checked-for-reference-scripts`: a Conway transaction whose only
     Plutus script comes from a reference input (redeemers present, no script in the witness set) and that has no
@@ -207,7 +223,8 @@ private def refScriptNoCollateral : View :=
     slot := 50, size := 300, maxSize := 16384, fee := 200000, minfeeA := 44, minfeeB := 155381, outputs := [⟨2000000, 1, false, false, some 1⟩],
     coinsParam := 4310, maxValueSize := 5000, envNetwork := 1, txNetwork := none, plutusInWitnesses := false, redeemersPresent := true,
     maxCollateralInputs := 3, collateralPercentage := 150, paidCollateral := none, totalCollateral := none, auxHashPresent := false,
-    auxPresent := false, auxHashMatches := false, external := fun _ => true }
+    auxPresent := false, auxHashMatches := false, scripts := sv0, datums := dv0, langs := lv0, sdh := sd0, value := val0, ex := ex0, wit := wit0,
+    external := fun _ => true }
 
 theorem full_collateral_fails_at_witness : ¬ FullCollateralStatement := by
   intro h
@@ -219,16 +236,280 @@ theorem accepted_aux_data (era : Era) (v : View) (hb : era ≠ .byron) (h : vali
     (v.auxHashPresent = true ∧ v.auxPresent = true ∧ v.auxHashMatches = true) ∨
     (v.auxHashPresent = false ∧ v.auxPresent = false) := by
   have := accept_implies_all_rules era v h .auxData (mem_order_post_byron era hb).2.2.2.2.2.2.2
-  simp only [verdict, (stated_post_byron era hb).2.2.2.2.2.2.2, if_true, auxData] at this
+  simp only [verdict, (stated_post_byron era v hb).2.2.2.2.2.2.2, if_true, auxData] at this
   cases h1 : v.auxHashPresent <;> cases h2 : v.auxPresent <;> simp_all
 
-/-- the rules with a stated predicate, per era (everything else in `order era` is an observed verdict) -/
-theorem stated_rules_cover :
-    (order .shelleyMA).filter (stated .shelleyMA) = [.insNotEmpty, .insInUtxo, .validity, .txSize, .minLovelace, .fee, .networkId, .auxData] ∧
-    (order .alonzo).filter (stated .alonzo) = [.insNotEmpty, .insInUtxo, .validity, .fee, .minLovelace, .valSize, .networkId, .txSize, .auxData] ∧
-    (order .babbage).filter (stated .babbage) = [.insNotEmpty, .insInUtxo, .validity, .fee, .minLovelace, .valSize, .networkId, .txSize, .auxData] ∧
-    (order .conway).filter (stated .conway) = [.insNotEmpty, .insInUtxo, .validity, .fee, .minLovelace, .valSize, .networkId, .txSize, .auxData] ∧
-    (order .byron).filter (stated .byron) = [.insNotEmpty, .txSize] := by decide
+/-! ## The script rules -/
+
+/-- the rules of the Alonzo / Babbage / Conway lists that are stated for every view -/
+theorem stated_script_rules (era : Era) (v : View) (he : eraHasCollateral era = true) :
+    (Rule.minting ∈ order era ∧ stated era v .minting = true) ∧ (Rule.witnesses ∈ order era ∧ stated era v .witnesses = true) ∧
+    (Rule.exUnits ∈ order era ∧ stated era v .exUnits = true) ∧ (Rule.languages ∈ order era ∧ stated era v .languages = true) ∧
+    (Rule.scriptDataHash ∈ order era ∧ stated era v .scriptDataHash = true) ∧ Rule.preservation ∈ order era := by
+  cases era <;> first | exact absurd he (by decide) | exact ⟨⟨by decide, rfl⟩, ⟨by decide, rfl⟩, ⟨by decide, rfl⟩, ⟨by decide, rfl⟩, ⟨by decide, rfl⟩, by decide⟩
+
+/-- every minted policy is witnessed by a script of the witness set (or, from Babbage on, of a reference input) -/
+theorem accepted_minting (era : Era) (v : View) (he : eraHasCollateral era = true) (h : validate era v = none) :
+    ∀ p ∈ v.scripts.mintPolicies, p ∈ providedScripts era v.scripts ∨ p ∈ refScriptsOf era v.scripts := by
+  obtain ⟨⟨hm, hs⟩, _⟩ := stated_script_rules era v he
+  have := accept_implies_all_rules era v h .minting hm
+  simp only [verdict, hs, if_true, minting, List.all_eq_true, Bool.or_eq_true, List.contains_iff_mem] at this
+  exact this
+
+theorem witnesses_parts (era : Era) (v : View) (he : eraHasCollateral era = true) (h : validate era v = none) :
+    neededScripts era v = true ∧ datumsOk v = true ∧ redeemersOk era v = true ∧ vkeyWitnessesOk era v = true := by
+  obtain ⟨_, ⟨hm, hs⟩, _⟩ := stated_script_rules era v he
+  have := accept_implies_all_rules era v h .witnesses hm
+  have hne : era ≠ .shelleyMA := by intro e; subst e; exact absurd he (by decide)
+  cases era <;> simp_all [verdict, witnesses]
+
+/-- needed scripts = provided scripts: every script-locked input and every minted policy has its script, and no
+    witness-set script (that is not also a reference script) is superfluous -/
+theorem accepted_scripts (era : Era) (v : View) (he : eraHasCollateral era = true) (h : validate era v = none) :
+    (∀ s ∈ v.scripts.inputScripts, s ∈ providedScripts era v.scripts ∨ s ∈ refScriptsOf era v.scripts) ∧
+    (∀ s ∈ providedScripts era v.scripts, s ∈ refScriptsOf era v.scripts ∨ s ∈ v.scripts.inputScripts ∨ s ∈ v.scripts.mintPolicies) := by
+  have := (witnesses_parts era v he h).1
+  simp only [neededScripts, Bool.and_eq_true, List.all_eq_true, Bool.or_eq_true, List.contains_iff_mem, List.mem_filter] at this
+  obtain ⟨⟨h1, _⟩, h3⟩ := this
+  refine ⟨?_, ?_⟩
+  · intro s hs; rcases h1 s hs with ⟨a, _⟩ | b
+    · exact Or.inl a
+    · exact Or.inr b
+  · intro s hs
+    by_cases hr : s ∈ refScriptsOf era v.scripts
+    · exact Or.inl hr
+    · exact Or.inr (h3 s ⟨hs, by simp [hr]⟩)
+
+/-- redeemer coverage: the redeemer pointers of the witness set are exactly the pointers of the phase-2 scripts -/
+theorem accepted_redeemers (era : Era) (v : View) (he : eraHasCollateral era = true) (h : validate era v = none) :
+    (∀ r ∈ v.scripts.redeemers, r ∈ neededPointers era v.scripts) ∧ (∀ n ∈ neededPointers era v.scripts, n ∈ v.scripts.redeemers) := by
+  have := (witnesses_parts era v he h).2.2.1
+  simp only [redeemersOk, Bool.and_eq_true, List.all_eq_true, List.contains_iff_mem] at this
+  exact ⟨this.1.2, this.2⟩
+
+/-- datum witnesses: every input datum hash is matched by a witness-set datum (`markInputs` succeeds) and every
+    unmatched witness-set datum is announced by an output / collateral return / reference input -/
+theorem accepted_datums (era : Era) (v : View) (he : eraHasCollateral era = true) (h : validate era v = none) :
+    v.datums.inputsResolved = true ∧
+    ∃ l, markInputs v.datums.inputDatumHashes (v.datums.witnessDatums.map (fun d => (false, d))) = some l ∧
+      ∀ e ∈ l, e.1 = true ∨ e.2 ∈ v.datums.allowedDatumHashes := by
+  have := (witnesses_parts era v he h).2.1
+  simp only [datumsOk, Bool.and_eq_true] at this
+  refine ⟨this.1, ?_⟩
+  cases hm : markInputs v.datums.inputDatumHashes (v.datums.witnessDatums.map (fun d => (false, d))) with
+  | none => simp [hm] at this
+  | some l =>
+    refine ⟨l, rfl, ?_⟩
+    have h2 := this.2
+    simp only [hm, List.all_eq_true, Bool.or_eq_true, List.contains_iff_mem] at h2
+    exact h2
+
+theorem markFirst_some (h : String) : ∀ (l l' : List (Bool × String)), markFirst h l = some l' → h ∈ l.map (·.2) := by
+  intro l
+  induction l with
+  | nil => intro l' hm; simp [markFirst] at hm
+  | cons e rest ih =>
+    intro l' hm
+    obtain ⟨f, d⟩ := e
+    unfold markFirst at hm
+    split at hm
+    · rename_i hd; simp [hd]
+    · cases hr : markFirst h rest with
+      | none => simp [hr] at hm
+      | some r => simp only [List.map_cons, List.mem_cons]; exact Or.inr (ih r hr)
+
+theorem markFirst_keys (h : String) : ∀ (l l' : List (Bool × String)), markFirst h l = some l' → l'.map (·.2) = l.map (·.2) := by
+  intro l
+  induction l with
+  | nil => intro l' hm; simp [markFirst] at hm
+  | cons e rest ih =>
+    intro l' hm
+    obtain ⟨f, d⟩ := e
+    unfold markFirst at hm
+    split at hm
+    · simp only [Option.some.injEq] at hm; subst hm; rfl
+    · cases hr : markFirst h rest with
+      | none => simp [hr] at hm
+      | some r => simp only [hr, Option.map_some, Option.some.injEq] at hm; subst hm; simp [ih r hr]
+
+/-- every datum hash carried by a spent input is the hash of a datum of the witness set -/
+theorem markInputs_covers : ∀ (hs : List (Option String)) (l l' : List (Bool × String)),
+    markInputs hs l = some l' → ∀ d, some d ∈ hs → d ∈ l.map (·.2) := by
+  intro hs
+  induction hs with
+  | nil => intro l l' _ d hd; cases hd
+  | cons x rest ih =>
+    intro l l' hm d hd
+    cases x with
+    | none =>
+      simp only [markInputs] at hm
+      rcases List.mem_cons.mp hd with e | e
+      · cases e
+      · exact ih l l' hm d e
+    | some x =>
+      simp only [markInputs] at hm
+      cases hf : markFirst x l with
+      | none => simp [hf] at hm
+      | some l1 =>
+        simp only [hf] at hm
+        rcases List.mem_cons.mp hd with e | e
+        · cases e; exact markFirst_some d l l1 hf
+        · have := ih l1 l' hm d e
+          rw [markFirst_keys x l l1 hf] at this; exact this
+
+theorem accepted_input_datums_covered (era : Era) (v : View) (he : eraHasCollateral era = true) (h : validate era v = none) :
+    ∀ d, some d ∈ v.datums.inputDatumHashes → d ∈ v.datums.witnessDatums := by
+  obtain ⟨_, l, hm, _⟩ := accepted_datums era v he h
+  intro d hd
+  have := markInputs_covers _ _ l hm d hd
+  simpa [Function.comp_def] using this
+
+/-- language availability -/
+theorem accepted_languages (era : Era) (v : View) (he : eraHasCollateral era = true) (h : validate era v = none) :
+    (era = .babbage → ∀ x ∈ v.langs.used, x ∈ blockLangs v.langs.protMagic v.envNetwork v.slot ∧ x ∈ allowedLangs era v.langs) ∧
+    (era = .conway → ∀ x ∈ v.langs.used, x ∈ v.langs.withCostModel ∨ x ∈ allowedLangs era v.langs) := by
+  obtain ⟨_, _, _, ⟨hm, hs⟩, _⟩ := stated_script_rules era v he
+  have := accept_implies_all_rules era v h .languages hm
+  simp only [verdict, hs, if_true] at this
+  refine ⟨?_, ?_⟩
+  · intro e; subst e
+    simpa [languages, List.all_eq_true, List.contains_iff_mem] using this
+  · intro e; subst e
+    simpa [languages, List.all_eq_true, List.contains_iff_mem] using this
+
+/-- script-integrity hash, Conway: the hash in the body is the BLAKE2b-256 that `Model/ScriptData.lean` (C08) computes from
+    the original redeemer and datum bytes of the witness set and the cost models of the used languages -/
+theorem accepted_script_data_hash_conway (v : View) (h : validate .conway v = none) :
+    (v.sdh.provided = none → v.langs.used = []) ∧
+    (∀ p, v.sdh.provided = some p → ∃ views, costModelForTx v.langs.used v.sdh.costModels = some views ∧
+      ScriptData.wsBuildHash v.sdh.witnessSetBytes (some views) = some (some p)) := by
+  obtain ⟨_, _, _, _, ⟨hm, hs⟩, _⟩ := stated_script_rules .conway v rfl
+  have := accept_implies_all_rules .conway v h .scriptDataHash hm
+  simp only [verdict, hs, if_true, scriptDataHash] at this
+  refine ⟨?_, ?_⟩
+  · intro hn; simp only [hn, List.isEmpty_iff] at this; exact this
+  · intro p hp
+    simp only [hp] at this
+    cases hc : costModelForTx v.langs.used v.sdh.costModels with
+    | none => simp [hc] at this
+    | some views =>
+      refine ⟨views, rfl, ?_⟩
+      simp only [hc] at this
+      cases hw : ScriptData.wsBuildHash v.sdh.witnessSetBytes (some views) with
+      | none => simp [hw] at this
+      | some o =>
+        cases o with
+        | none => simp [hw] at this
+        | some hh => simp only [hw, beq_iff_eq] at this; rw [this]
+
+/-- script-integrity hash, Alonzo: BLAKE2b-256 over re-encoded redeemers ‖ indefinite datum list ‖ cost-model bytes -/
+theorem accepted_script_data_hash_alonzo (v : View) (h : validate .alonzo v = none) :
+    ∀ p, v.sdh.provided = some p → ∃ r ds, v.sdh.redeemerEnc = some r ∧ v.sdh.datumEncs = some ds ∧
+      Blake2b.blake2b256 (r ++ [0x9f] ++ ds.flatten ++ [0xff] ++ v.sdh.costModelBytes) = p := by
+  obtain ⟨_, _, _, _, ⟨hm, hs⟩, _⟩ := stated_script_rules .alonzo v rfl
+  have := accept_implies_all_rules .alonzo v h .scriptDataHash hm
+  simp only [verdict, hs, if_true, scriptDataHash] at this
+  intro p hp
+  simp only [hp] at this
+  cases hr : v.sdh.redeemerEnc with
+  | none => simp [hr] at this
+  | some r =>
+    cases hd : v.sdh.datumEncs with
+    | none => simp [hr, hd] at this
+    | some ds =>
+      simp only [hr, hd, beq_iff_eq] at this
+      exact ⟨r, ds, rfl, rfl, this⟩
+
+/-- script-integrity hash, Babbage: either of the two encodings of the datum list (indefinite / definite; nothing at all when
+    there are no datums) -/
+theorem accepted_script_data_hash_babbage (v : View) (h : validate .babbage v = none) :
+    ∀ p, v.sdh.provided = some p → ∃ r ds, v.sdh.redeemerEnc = some r ∧ v.sdh.datumEncs = some ds ∧
+      (Blake2b.blake2b256 (r ++ (if ds.isEmpty then [] else [0x9f] ++ ds.flatten ++ [0xff]) ++ v.sdh.costModelBytes) = p ∨
+       Blake2b.blake2b256 (r ++ (if ds.isEmpty then [] else arrayHead ds.length ++ ds.flatten) ++ v.sdh.costModelBytes) = p) := by
+  obtain ⟨_, _, _, _, ⟨hm, hs⟩, _⟩ := stated_script_rules .babbage v rfl
+  have := accept_implies_all_rules .babbage v h .scriptDataHash hm
+  simp only [verdict, hs, if_true, scriptDataHash] at this
+  intro p hp
+  simp only [hp] at this
+  cases hr : v.sdh.redeemerEnc with
+  | none => simp [hr] at this
+  | some r =>
+    cases hd : v.sdh.datumEncs with
+    | none => simp [hr, hd] at this
+    | some ds =>
+      simp only [hr, hd] at this
+      exact ⟨r, ds, rfl, rfl, by simpa using this⟩
+
+/-- without a script-integrity hash in the body an accepted Alonzo / Babbage transaction has neither datums nor redeemers -/
+theorem accepted_no_script_data_hash (era : Era) (v : View) (he : era = .alonzo ∨ era = .babbage) (h : validate era v = none)
+    (hn : v.sdh.provided = none) : v.sdh.datumEncs.getD [] = [] ∧ v.sdh.redeemerCount = 0 := by
+  have hc : eraHasCollateral era = true := by rcases he with rfl | rfl <;> rfl
+  obtain ⟨_, _, _, _, ⟨hm, hs⟩, _⟩ := stated_script_rules era v hc
+  have := accept_implies_all_rules era v h .scriptDataHash hm
+  simp only [verdict, hs, if_true] at this
+  rcases he with rfl | rfl <;> simpa [scriptDataHash, hn] using this
+
+/-! ## The linked rule models: acceptance implies the conclusions of C34, C37 and C35 -/
+
+/-- value preservation (C34) for an accepted Alonzo / Babbage transaction without certificates -/
+theorem accepted_value_balanced (era : Era) (v : View) (he : era = .alonzo ∨ era = .babbage) (hmod : v.value.modelled = true)
+    (h : validate era v = none) : Props.C34.Balanced v.value.spent v.value.produced v.fee v.value.mint := by
+  have hm : Rule.preservation ∈ order era ∧ stated era v .preservation = true := by
+    rcases he with rfl | rfl <;> exact ⟨by decide, hmod⟩
+  have := accept_implies_all_rules era v h .preservation hm.1
+  simp only [verdict, hm.2, if_true] at this
+  rcases he with rfl | rfl <;> exact Props.C34.preservation_sound _ _ _ _ (by simpa [valueOk] using this)
+
+theorem accepted_value_balanced_shelleyMA (v : View) (hmod : v.value.modelled = true) (h : validate .shelleyMA v = none) :
+    Props.C34.Balanced v.value.spent v.value.produced v.fee v.value.mint := by
+  have := accept_implies_all_rules .shelleyMA v h .preservation (by decide)
+  have hs : stated .shelleyMA v .preservation = true := hmod
+  simp only [verdict, hs, if_true] at this
+  exact Props.C34.preservation_sound_shelleyMA _ _ _ _ _ (by simpa [valueOk] using this)
+
+theorem accepted_value_balanced_conway (v : View) (hmod : v.value.modelled = true)
+    (hins : ∀ x ∈ v.value.spent, Value.Norm x) (houts : ∀ x ∈ v.value.produced, Value.Norm x)
+    (hmint : ∀ m, v.value.mint = some m → Value.NodupMA m) (h : validate .conway v = none) :
+    Props.C34.Balanced v.value.spent v.value.produced v.fee v.value.mint := by
+  have := accept_implies_all_rules .conway v h .preservation (by decide)
+  have hs : stated .conway v .preservation = true := hmod
+  simp only [verdict, hs, if_true] at this
+  exact Props.C34.preservation_sound_conway _ _ _ _ hins houts hmint (by simpa [valueOk] using this)
+
+/-- execution units (C37): the redeemer budgets of an accepted transaction are within the maximum -/
+theorem accepted_ex_units (era : Era) (v : View) (he : eraHasCollateral era = true) (rs : ExUnits.Redeemers)
+    (hred : v.ex.wits.redeemers = some rs) (hpl : era = .alonzo → ExUnits.presence .alonzo v.ex.wits = true)
+    (h : validate era v = none) :
+    Props.C37.sumMem rs.budgets ≤ v.ex.maxMem ∧ Props.C37.sumSteps rs.budgets ≤ v.ex.maxSteps := by
+  obtain ⟨_, _, ⟨hm, hs⟩, _⟩ := stated_script_rules era v he
+  have := accept_implies_all_rules era v h .exUnits hm
+  simp only [verdict, hs, if_true, exUnitsOk, beq_iff_eq] at this
+  refine Props.C37.exunits_sound (exUnitsEra era) v.ex.wits v.ex.maxMem v.ex.maxSteps rs this hred ?_
+  intro e
+  cases era <;> simp_all [exUnitsEra]
+
+/-- witnesses (C35): every key witness of an accepted Alonzo+ transaction is a valid signature, every key-locked input /
+    collateral and every required signer is signed -/
+theorem accepted_signatures (era : Era) (v : View) (he : eraHasCollateral era = true) (h : validate era v = none) :
+    (∀ w ∈ v.wit.witnesses.getD [], Props.C35.Valid v.wit.verify v.wit.txId w) ∧
+    (∀ k, Witness.InputView.key k ∈ v.wit.inputViews → Props.C35.Signed v.wit.hash v.wit.verify v.wit.txId (v.wit.witnesses.getD []) k) ∧
+    (∀ r ∈ v.wit.requiredSigners.getD [], Props.C35.Signed v.wit.hash v.wit.verify v.wit.txId (v.wit.witnesses.getD []) r) := by
+  have hw := (witnesses_parts era v he h).2.2.2
+  have hne : era ≠ .shelleyMA := by intro e; subst e; exact absurd he (by decide)
+  have : Witness.checkWitnessSet v.wit.hash v.wit.verify (era == .conway) v.wit.requiredSigners v.wit.witnesses v.wit.inputViews v.wit.txId = .ok () := by
+    cases era <;> simp_all [vkeyWitnessesOk] <;>
+      (cases hc : Witness.checkWitnessSet v.wit.hash v.wit.verify _ v.wit.requiredSigners v.wit.witnesses v.wit.inputViews v.wit.txId <;> simp_all [isOkR])
+  exact Props.C35.accept_implies_all_valid v.wit.hash v.wit.verify _ _ _ _ _ this
+
+/-- the rules with a stated predicate, per era, for a transaction without certificates (with certificates the value
+    rule drops out of the list; everything else in `order era` is an observed verdict) -/
+theorem stated_rules_cover (v : View) (hm : v.value.modelled = true) :
+    (order .shelleyMA).filter (stated .shelleyMA v) = [.insNotEmpty, .insInUtxo, .validity, .txSize, .minLovelace, .preservation, .fee, .networkId, .auxData, .witnesses, .minting] ∧
+    (order .alonzo).filter (stated .alonzo v) = order .alonzo ∧
+    (order .babbage).filter (stated .babbage v) = order .babbage ∧
+    (order .conway).filter (stated .conway v) = order .conway ∧
+    (order .byron).filter (stated .byron v) = [.insNotEmpty, .txSize] := by
+  refine ⟨?_, ?_, ?_, ?_, ?_⟩ <;> simp [order, List.filter, stated, hm]
 
 /-! ## Non-vacuity -/
 private def okOut : OutView := ⟨2000000, 1, false, false, some 1⟩
@@ -237,7 +518,8 @@ private def v0 : View :=
     slot := 50, size := 300, maxSize := 16384, fee := 200000, minfeeA := 44, minfeeB := 155381, outputs := [okOut], coinsParam := 4310,
     maxValueSize := 5000, envNetwork := 1, txNetwork := none, plutusInWitnesses := false, redeemersPresent := false, maxCollateralInputs := 3,
     collateralPercentage := 150, paidCollateral := none, totalCollateral := none, auxHashPresent := false, auxPresent := false,
-    auxHashMatches := false, external := fun _ => true }
+    auxHashMatches := false, scripts := sv0, datums := dv0, langs := lv0, sdh := sd0, value := val0, ex := ex0, wit := wit0,
+    external := fun _ => true }
 example : validate .babbage v0 = none := by decide
 example : validate .babbage { v0 with slot := 101 } = some .validity := by decide
 example : validate .babbage { v0 with envNetwork := 0 } = some .networkId := by decide
@@ -252,6 +534,25 @@ example : validate .conway { v1 with totalCollateral := some 400001 } = some .fe
 example : validate .conway { v1 with maxCollateralInputs := 0 } = some .fee := by decide
 example : validate .alonzo { v0 with outputs := [{ okOut with lovelace := 100000 }] } = some .minLovelace := by decide
 example : validate .shelleyMA { v0 with ttl := none, coinsParam := 1000000 } = some .validity := by decide
-example : validate .babbage { v0 with external := fun r => r != .witnesses } = some .witnesses := by decide
+example : validate .shelleyMA { v0 with external := fun r => r != .certificates } = some .certificates := by decide
+-- the script rules reject on their own: a minted policy without script, a script-locked input without script, a superfluous
+-- script, a redeemer nothing points to, a missing / an unannounced datum, an unavailable language, a wrong script-integrity
+-- hash, an unbalanced value, exceeded execution units, a key-locked input without signature
+example : validate .babbage { v0 with scripts := { sv0 with mintPresent := true, mintPolicies := ["p"], sortedPolicies := ["p"] } } = some .minting := by decide
+example : validate .shelleyMA { v0 with scripts := { sv0 with mintPresent := true, mintPolicies := ["p"], sortedPolicies := ["p"] } } = some .minting := by decide
+example : validate .babbage { v0 with scripts := { sv0 with mintPresent := true, mintPolicies := ["p"], sortedPolicies := ["p"], native := ["p"] } } = none := by decide
+example : validate .alonzo { v0 with scripts := { sv0 with inputScripts := ["s"], sortedInputScripts := [some "s"] } } = some .witnesses := by decide
+example : validate .conway { v0 with scripts := { sv0 with native := ["s"] } } = some .witnesses := by decide
+example : validate .conway { v0 with scripts := { sv0 with redeemers := [⟨0, 0⟩] } } = some .witnesses := by decide
+example : validate .conway { v0 with datums := { dv0 with inputDatumHashes := [some "d"] } } = some .witnesses := by decide
+example : validate .conway { v0 with datums := { dv0 with witnessDatums := ["d"] } } = some .witnesses := by decide
+example : validate .conway { v0 with datums := { dv0 with witnessDatums := ["d"], allowedDatumHashes := ["d"] } } = none := by decide
+example : validate .babbage { v0 with langs := { lv0 with used := [2] } } = some .languages := by decide
+example : validate .conway { v0 with langs := { lv0 with used := [0], withCostModel := [], anyReferenceInput := true } } = some .languages := by decide
+example : validate .conway { v0 with langs := { lv0 with used := [2] } } = some .scriptDataHash := by decide
+example : validate .babbage { v0 with sdh := { sd0 with redeemerCount := 1 } } = some .scriptDataHash := by decide
+example : validate .babbage { v0 with value := { val0 with produced := [.coin 2000001] } } = some .preservation := by decide
+example : validate .babbage { v0 with ex := { ex0 with wits := ⟨none, none, none, some (.list [(⟨0, 0⟩, ⟨14000001, 1⟩)])⟩ } } = some .exUnits := by decide
+example : validate .babbage { v0 with wit := { wit0 with inputViews := [.key "k"] } } = some .witnesses := by decide
 
 end PallasVerif.Props.C38
